@@ -1921,6 +1921,13 @@ def t_entry_flags(facts, res, tier):
         bad += ["match arm %s" % pat_text(a[2]) for a in arms
                 if not (pat_text(a[2]).replace(" ", "").startswith("Some(") and expr_text(a[1]).replace(" ", "") .lstrip("&") in ("self.current_function", "self.current_function.as_ref()", "self.current_function.clone()"))]
         found.setdefault(field, []).append((node, bad))
+    # the block runs before every statement until the function has emitted its first byte - possibly many times: it may only forget
+    # what is believed of the processor (idempotent), never a counter or a stack
+    for node, env, doms in scoped(fn):
+        if node.get("k") in ("assign", "assignop") and top_of.get(id(node), len(stmts)) < first_emit:
+            l = expr_text(node["l"]).replace(" ", "")
+            if l.startswith("self.") and l[5:] not in ENTRY_STATE:
+                res.fail("T-ENTRY-FLAGS:other-state:%s" % l[5:], facts.where(fn, node), "generate_statement assigns `%s` in the block guarded by `no instruction generated yet`: that block runs before every statement until the first byte is emitted (a function that opens with `do {` runs it again inside the loop), so a counter reset there hands out the same label number twice" % l)
     for field, want in ENTRY_STATE.items():
         key = "T-ENTRY-FLAGS:%s" % field
         cands = found.get(field, [])
@@ -2740,6 +2747,13 @@ def t_class_kept(facts, res, tier):
             how = None
             if rhs.startswith("matchmemory{"):
                 how = "function of the current class"
+                # .. but not one that sends every remaining class (the split-port ones among them) to one RAM class
+                for a in (node["r"].get("arms") or []):
+                    pt = pat_text(a["pat"]).replace(" ", "")
+                    bt = expr_text(a["body"]).replace(" ", "")
+                    if (pt == "_" or re.fullmatch(r"\w+", pt)) and re.match(r"VariableMemory::(Ramchip|Ramplus|Zeropage|MemoryOnChip|Superchip)\b", bt):
+                        how = None
+                        catch_all = bt
             elif any(re.search(r"\bmemory(==|!=)|matches!\(memory", c) for c in conds) or any(sc.lstrip("&") == "memory" for sc, pt in arms):
                 how = "under a test of the current class"
             elif arms and arms[-1][0].endswith(".as_rule()") and re.fullmatch(r"Rule::\w+", arms[-1][1]) and arms[-1][1] != "Rule::var_def" and rhs.startswith("VariableMemory::"):
@@ -2750,7 +2764,9 @@ def t_class_kept(facts, res, tier):
                     how = "keyword %s" % arms[-1][1]
             key = "T-CLASS-KEPT:%s:%s" % (fn["name"], rhs[:40])
             res.inst(key, True, {"function": fn["name"], "assigns": rhs[:50], "admitted_as": how})
-            if how is None:
+            if how is None and rhs.startswith("matchmemory{"):
+                res.fail(key, facts.where(fn, node), "%s assigns `memory = match memory { .. _ => %s }`: the catch-all sends every class it does not name - `superchip` and the on-chip RAM of 3E among them - to one ordinary RAM class, and their reads go to the write port" % (fn["name"], catch_all))
+            elif how is None:
                 res.fail(key, facts.where(fn, node), "%s assigns `memory = %s` under `%s` without looking at the class the declaration gave: a `superchip` / `bankN` / `display` variable silently changes class there" % (fn["name"], rhs[:40], " && ".join(conds[-3:]) or "no condition"))
     if n == 0:
         raise AnchorMissing("compile.rs: no assignment to `memory`")
@@ -4407,3 +4423,91 @@ def t_load_operand_protected(facts, res, tier):
                 res.fail(key, facts.where(fn, st[idx] if idx is not None else a["body"]), "generate_statement evaluates the operand of load() without the protected flag raised around it (or leaves with the flag up on an error): the reads the operand makes are ordinary instructions the optimiser may delete")
     if n == 0:
         raise AnchorMissing("generate_statement: no arm for Statement::Load")
+
+
+@rule("T-SIGNEXT-ONLY", floor=3,
+      text="the high byte of a signed 8-bit operand is its sign, $00 or $FF, whichever way the operand is reached.  In the identifier arm of "
+           "generate_expr every branch taken for `high_byte && .. signed` (a signed char element at a constant offset, through X, through Y, a "
+           "signed char variable) answers with generate_sign_extend of that operand and nothing else: a shortcut that answers "
+           "`Immediate(<the element>)` for a ROM table gives the high byte of the *literal* (`0x90` -> $00) where the same element read through X "
+           "is sign-extended to $FF")
+def t_signext_only(facts, res, tier):
+    fn = facts.fn("generate_expr", genmodel.GEN_QUAL)
+    n = 0
+    for x in walk(fn["body"]):
+        if x.get("k") != "if":
+            continue
+        c = expr_text(x["cond"]).replace(" ", "")
+        if not ("high_byte" in c and "signed" in c and "!high_byte" not in c):
+            continue
+        calls = [y for y in walk(x["then"]) if _self_call(y, ("generate_sign_extend",))]
+        if not calls:
+            continue
+        n += 1
+        key = "T-SIGNEXT-ONLY:generate_expr#%d" % n
+        st = x["then"].get("stmts", [])
+        only = len(st) == 1 and any(y is calls[0] for y in walk(st[0])) and not any(y.get("k") == "return" for y in walk(x["then"]))
+        res.inst(key, True, {"condition": c[:70], "answers_with_sign_extension_only": only})
+        if not only:
+            res.fail("T-SIGNEXT-ONLY:generate_expr", facts.where(fn, x["then"]), "generate_expr: under `%s` the high byte is not always the sign extension of the operand (another answer is returned first): the same value reached another way gets another high byte" % c[:70])
+    if n == 0:
+        raise AnchorMissing("generate_expr: no sign extension under a high byte test found")
+
+
+@rule("T-CPP-PARAM-TRIM", floor=1,
+      text="a blank, a tab or a comment may stand on either side of a comma between the parameters of a function-like macro.  Where the #define "
+           "branch of process() splits the parameter list at its commas, each name is trimmed on both sides (`v.trim()`) before it becomes a "
+           "regular expression and a capture-group name: trimmed on one side only, `#define add(a ,b)` keeps `a ` as a name and the definition "
+           "is rejected")
+def t_cpp_param_trim(facts, res, tier):
+    fn = facts.fn("process", "")
+    n = 0
+    for lp in walk(fn["body"]):
+        if lp.get("k") != "for":
+            continue
+        it = expr_text(lp.get("iter") or {}).replace(" ", "")
+        if not re.search(r"\.split\((','|\",\")\)$", it):
+            continue
+        var = scopes_pat_names(lp.get("pat"))
+        if len(var) != 1:
+            continue
+        uses_regex = "Regex::new" in expr_text(lp["body"])
+        if not uses_regex:
+            continue
+        n += 1
+        key = "T-CPP-PARAM-TRIM:process"
+        # the name used in the body: a local bound to <var>.trim(), or <var>.trim() itself
+        names = {}
+        for s in lp["body"].get("stmts", []):
+            if s.get("k") == "let" and s.get("pat", {}).get("k") == "ident" and s.get("init") is not None:
+                names[s["pat"]["name"]] = expr_text(s["init"]).replace(" ", "")
+        derived = {nm: t for nm, t in names.items() if re.match(r"^%s\b" % re.escape(var[0]), t)}
+        ok = any(t == "%s.trim()" % var[0] for t in derived.values())
+        raw_use = any(y.get("k") == "path" and y["segs"] == [var[0]] for s in lp["body"].get("stmts", []) if s.get("k") != "let" for y in walk(s))
+        res.inst(key, True, {"split_variable": var[0], "names": derived, "raw_use": raw_use})
+        if not ok or raw_use:
+            res.fail(key, facts.where(fn, lp), "process() splits the parameter list of a function-like macro at the commas and uses `%s` as the name: not trimmed on both sides, a blank or comment next to a comma stays in the name" % (list(derived.values())[0] if derived else var[0]))
+    if n == 0:
+        raise AnchorMissing("process(): the loop over the parameters of a function-like macro was not found")
+
+
+@rule("T-STMT-TAIL", floor=1,
+      text="generate_statement ends every statement the same way: after the dispatch on the kind of statement it applies what the statement left "
+           "pending (`purge_deferred_plusplus_and_savey`: postfix ++/--, the restore of a parked Y).  No arm of the dispatch leaves the function "
+           "normally before that tail (`return self.generate_..(..)`): the pending INX / `LDY cctmp` would be emitted by the next statement, "
+           "after the label that joins an if/else, a loop or a case")
+def t_stmt_tail(facts, res, tier):
+    fn = facts.fn("generate_statement", genmodel.GEN_QUAL)
+    stmts = fn["body"].get("stmts", [])
+    disp = next((i for i, s in enumerate(stmts) if any(x.get("k") == "match" and expr_text(x["e"]).replace(" ", "").lstrip("&") in ("code.statement",) for x in [s] + [y for y in walk(s) if y.get("k") == "match"][:1])), None)
+    if disp is None:
+        raise AnchorMissing("generate_statement: the dispatch on code.statement was not found")
+    tail = [s for s in stmts[disp + 1:] if any(_self_call(x, ("purge_deferred_plusplus_and_savey",)) for x in walk(s))]
+    key = "T-STMT-TAIL:generate_statement"
+    m = next(x for x in [stmts[disp]] + list(walk(stmts[disp])) if x.get("k") == "match" and expr_text(x["e"]).replace(" ", "").lstrip("&") == "code.statement")
+    early = [(a, r) for a in m["arms"] for r in walk(a["body"]) if r.get("k") == "return" and not expr_text(r.get("e") or {}).replace(" ", "").startswith("Err(")]
+    res.inst(key, True, {"arms": len(m["arms"]), "tail_purges": bool(tail), "arms_returning_early": len(early)})
+    if not tail:
+        res.fail(key, facts.where(fn, stmts[-1]), "generate_statement no longer applies the pending ++/-- and the restore of Y after the statement it has generated")
+    for a, r in early:
+        res.fail(key, facts.where(fn, r), "generate_statement: the arm `%s` returns before the tail that applies what the statement left pending: the INX / LDY cctmp of `load(tab[X++])`, `store(buf[i])` is emitted by the next statement, after the join label of the construct around it" % pat_text(a["pat"])[:40])
